@@ -26,7 +26,8 @@ func c03Gen(t *rapid.T, r *h.Rec) execCase {
 	o := jsonOpts(av, onEx, onCl)
 	o.Unions = 1
 	o.EnumStress = true
-	return execCase{Spec: synth.GenTypes(t, o), Seed: int64(rapid.IntRange(1, 1<<30).Draw(t, "childSeed"))}
+	o.EmbedNamed = true
+	return execCase{Spec: synth.GenTypes(t, o), Seed: int64(rapid.IntRange(1, 1<<30).Draw(t, "childSeed")), Checks: childChecks(25, 80)}
 }
 
 // tsStatic parses the TypeScript output and checks well-formedness / self-containedness.
